@@ -43,7 +43,7 @@ static const std::vector<std::string>& value_pool()
                                                 "-o",    "=x",    "value with  two blanks",
                                                 "0",     "-1",    "2147483647", "-2147483648",
                                                 "123456789012", "3.25", "-0.125", "1000000",
-                                                "65535", "0.001" };
+                                                "65535", "0.001", "010", "0089", "-0012", "0100" };
     return p;
 }
 
@@ -339,6 +339,9 @@ static void gen_related_tokens(vf::Src& src, const Case& c, std::vector<std::str
             else
                 t += undeclared_letter();
         }
+        // a dash inside a bundle is just another character that matches nothing declared
+        if (src.coin(8) && t.size() >= 2)
+            t.insert(2 + src.index(t.size() - 1), "-"); // behind the first letter: still a short token
         if (src.coin(6))
             t += "=" + gen_value(src);
         argv.push_back(t);
@@ -350,7 +353,7 @@ static void gen_related_tokens(vf::Src& src, const Case& c, std::vector<std::str
         if (allow_no && !c.e.empty())
         {
             const Entry& e = c.e[src.index(c.e.size())];
-            argv.push_back("--no-" + e.name);
+            argv.push_back("--no-" + e.name + (src.coin(15) ? "=" + gen_value(src) : std::string()));
             break;
         }
         /* fallthrough */
@@ -787,7 +790,7 @@ static void gen_c11(vf::Src& src, Case& c, bool exhaustive)
             /* fallthrough */
         default:
             if (e.reversible || src.coin(20))
-                st.argv.push_back("--no-" + e.name);
+                st.argv.push_back("--no-" + e.name + (src.coin(6) ? "=" + gen_value(src) : std::string()));
             else
                 st.argv.push_back("--" + e.name);
         }
@@ -869,6 +872,8 @@ static void gen_c14(vf::Src& src, Case& c)
     o.min_entries = 1;
     gen_decl(src, c, o);
     gen_limit(src, c);
+    if (c.e.size() >= 2 && src.coin(25))
+        c.late = src.irange(1, static_cast<int>(c.e.size()) - 1);
     int k = src.irange(2, 6);
     for (int s = 0; s < k; ++s)
     {
@@ -936,6 +941,25 @@ Case generate(vf::Src& src, const std::string& mode)
         for (auto& t : c.steps[0].argv)
             if (!om::is_value_token(t) && t != "--" && !om::split_dash_token(t).wellformed)
                 c.via_argv = true;
+        // part of the declaration may be made only after a first parse() on the object
+        if (c.e.size() >= 2 && src.coin(20))
+            c.late = src.irange(1, static_cast<int>(c.e.size()) - 1);
+        // the command line wins over a bound and set environment variable: which entries the
+        // rendering gives on the command line is read off the reference parser (no variable is
+        // bound yet, so "provided" means "given on the command line")
+        {
+            om::Outcome m = om::model_parse(c, c.steps[0]);
+            for (std::size_t i = 0; i < c.e.size(); ++i)
+            {
+                Entry& e = c.e[i];
+                if (m.cls == 0 && m.provided.count(e.name) && src.coin(25))
+                {
+                    e.env_bound = true;
+                    c.steps[0].env_state[i] = 2;
+                    c.steps[0].env_word[i] = e.kind == TOGGLE ? "no" : "from-env;x";
+                }
+            }
+        }
     }
     else if (mode == "c03")
         gen_c03(src, c, false);
@@ -965,7 +989,7 @@ Case generate(vf::Src& src, const std::string& mode)
     // The statements hold for every parse() on a parser object, not only the first one: in a
     // third of the cases an unrelated command line is parsed on the same object beforehand
     // (its outcome is ignored), then the case proper.
-    if ((mode == "c01" || mode == "c03" || mode == "c11" || mode == "c12") && src.coin(30))
+    if ((mode == "c01" || mode == "c03" || mode == "c04" || mode == "c11" || mode == "c12") && src.coin(30))
     {
         Step warm = blank_step(c);
         int k = src.irange(0, 4);
@@ -1123,9 +1147,26 @@ std::string check(const Case& c0, vf::Ctx& ctx)
     } env_guard;
 
     std::unique_ptr<nitro::options::parser> parser;
+    const std::size_t early = c.e.size() - std::min<std::size_t>(static_cast<std::size_t>(std::max(0, c.late)), c.e.size());
     try
     {
-        parser = om::build_parser(c);
+        parser = om::build_parser(c, c.prop == "c14" ? early : static_cast<std::size_t>(-1));
+        if (c.prop != "c14" && c.late > 0)
+        {
+            // a first parse() (empty command line, outcome ignored) on the partial declaration,
+            // then the rest of the declaration is made on the same object
+            parser = om::build_parser(c, early);
+            ctx.tag("late-declaration");
+            try
+            {
+                std::vector<const char*> av = { "prog" };
+                (void)parser->parse(1, av.data());
+            }
+            catch (const std::exception&)
+            {
+            }
+            om::declare_entries(parser.get(), c, early, c.e.size());
+        }
     }
     catch (const std::exception& e)
     {
@@ -1140,9 +1181,20 @@ std::string check(const Case& c0, vf::Ctx& ctx)
         for (std::size_t k = 0; k < c.steps.size(); ++k)
         {
             const Step& st = c.steps[k];
-            om::Outcome shared = om::real_parse(*parser, c, st);
-            auto fresh_parser = om::build_parser(c);
-            om::Outcome fresh = om::real_parse(*fresh_parser, c, st);
+            // with late declarations the first step runs on the partial declaration; the rest of
+            // the entries is declared on the same object afterwards
+            Case partial = c;
+            if (k == 0 && c.late > 0)
+            {
+                partial.e.resize(early);
+                ctx.tag("late-declaration");
+            }
+            const Case& cc = (k == 0 && c.late > 0) ? partial : c;
+            om::Outcome shared = om::real_parse(*parser, cc, st);
+            auto fresh_parser = om::build_parser(cc);
+            om::Outcome fresh = om::real_parse(*fresh_parser, cc, st);
+            if (k == 0 && c.late > 0)
+                om::declare_entries(parser.get(), c, early, c.e.size());
             if (k >= 1 && (earlier_failed || earlier_set))
                 nontrivial = true;
             if (shared.cls >= 2)
